@@ -162,6 +162,7 @@ class Collector:
         self.samples = []
         self.observed_only = {}
         self.tsum = 0.0
+        self.metrics = {}
 
     def add(self, out, case):
         self.evaluations += 1
@@ -189,6 +190,8 @@ class Collector:
         for o in (oc if isinstance(oc, (list, tuple)) else [oc]):
             if len(self.outcomes) < 100000:
                 self.outcomes[o] = self.outcomes.get(o, 0) + 1
+        for mk, mv in (out.get('metrics') or {}).items():
+            self.metrics[mk] = max(self.metrics.get(mk, mv), mv)
         for o in out['observed_only']:
             self.observed_only[o] = self.observed_only.get(o, 0) + 1
         for v in out['violations']:
@@ -350,6 +353,7 @@ def finish(pid, tier, seed, mod, col, info):
         'inconclusive': col.inconclusive,
         'distinct_outcomes': len(col.outcomes),
         'observed_only': col.observed_only,
+        'max_metrics': col.metrics,
         'known_findings_hit': sorted(hit.keys()),
         'violation_signatures': [v['signature'] for v in fresh[:20]],
         'harness_errors': len(col.harness_errors),
